@@ -71,6 +71,9 @@ func TestMain(m *testing.M) {
 		"dirindex/index.html/x.txt", "sp ace.txt", "..x", "%41.txt", "idx/home.htm", "p/inner.txt", "px", "e.txt"} {
 		pub(f)
 	}
+	// a file shorter than the range some requests ask for (bytes=2-5)
+	write(filepath.Join("public", "tiny"), "ab")
+	files["/tiny"] = "ab"
 	write("secret.txt", outside1)
 	write("public-evil/e.txt", outside2)
 	write("public-evil/index.html", outside2)
@@ -278,64 +281,86 @@ func checkCase(c Case) (out evid.Outcome) {
 			}
 			return evid.Outcome{}
 		}
-		if w.lenient && spy.Status() == 299 {
-			// a non-canonical path that Static chose not to resolve
-			if o := silent(); o.Violation != "" {
-				return o
-			}
-			out.Classes = append(out.Classes, "non-canonical-path-refused")
-			continue
-		}
-		switch w.kind {
-		case "silent":
-			if o := silent(); o.Violation != "" {
-				return o
-			}
-			out.Classes = append(out.Classes, "silent")
-		case "redirect":
-			if o := redirect(); o.Violation != "" {
-				return o
-			}
-			out.Classes = append(out.Classes, "redirect")
-		case "redirect-or-silent":
-			if spy.Status() == 299 {
+		judge := func(wj want) (o evid.Outcome, cls string) {
+			w = wj // (silent and redirect quote the verdict they are held against)
+			if w.lenient && spy.Status() == 299 {
+				// a non-canonical path that Static chose not to resolve
 				if o := silent(); o.Violation != "" {
-					return o
+					return o, ""
 				}
-			} else if o := redirect(); o.Violation != "" {
-				return o
+				return evid.Outcome{}, "non-canonical-path-refused"
 			}
-			out.Classes = append(out.Classes, "indexless-dir")
-		case "file":
-			wantBody := w.marker
-			// a conditional request whose validator is the one Static handed out
-			// may also be answered "not modified" with an empty body (that sends
-			// nothing of any file, so the statement holds)
-			notModified := q.INM == "match" && spy.Status() == 304 && body == ""
-			served := spy.Status() == 200 && (body == wantBody || (q.M == "HEAD" && body == ""))
-			switch q.Hdr {
-			case "range":
-				// part of the file (that is content of the file), or all of it
-				if len(wantBody) >= 6 && spy.Status() == 206 && (body == wantBody[2:6] || (q.M == "HEAD" && body == "")) {
-					served = true
+			switch w.kind {
+			case "silent":
+				if o := silent(); o.Violation != "" {
+					return o, ""
 				}
-				if spy.Status() == 416 && !strings.Contains(body, "MARK:") {
-					served = true // shorter than the range asks for
+				cls = "silent"
+			case "redirect":
+				if o := redirect(); o.Violation != "" {
+					return o, ""
 				}
-			case "range-out":
-				if spy.Status() == 416 && !strings.Contains(body, "MARK:") {
-					served = true // net/http's answer to a range outside the file: no file content at all
+				cls = "redirect"
+			case "redirect-or-silent":
+				if spy.Status() == 299 {
+					if o := silent(); o.Violation != "" {
+						return o, ""
+					}
+				} else if o := redirect(); o.Violation != "" {
+					return o, ""
 				}
-			case "ims-future":
-				if spy.Status() == 304 && body == "" {
-					served = true
+				cls = "indexless-dir"
+			case "file":
+				wantBody := w.marker
+				// a conditional request whose validator is the one Static handed out
+				// may also be answered "not modified" with an empty body (that sends
+				// nothing of any file, so the statement holds)
+				notModified := q.INM == "match" && spy.Status() == 304 && body == ""
+				served := spy.Status() == 200 && (body == wantBody || (q.M == "HEAD" && body == ""))
+				switch q.Hdr {
+				case "range":
+					// part of the file (that is content of the file), or all of it
+					if len(wantBody) >= 6 && spy.Status() == 206 && (body == wantBody[2:6] || (q.M == "HEAD" && body == "")) {
+						served = true
+					}
+					if spy.Status() == 416 && !strings.Contains(body, "MARK:") {
+						served = true // shorter than the range asks for
+					}
+				case "range-out":
+					if spy.Status() == 416 && !strings.Contains(body, "MARK:") {
+						served = true // net/http's answer to a range outside the file: no file content at all
+					}
+				case "ims-future":
+					if spy.Status() == 304 && body == "" {
+						served = true
+					}
 				}
+				if nextRan || !(served || notModified) {
+					return fail(out, "wrong-file-response", "want status 200 body %q (or 304 for a conditional request), got status %v body %q, next ran=%v; %s", wantBody, spy.Codes, clip(body), nextRan, desc), ""
+				}
+				cls = "file-served"
 			}
-			if nextRan || !(served || notModified) {
-				return fail(out, "wrong-file-response", "want status 200 body %q (or 304 for a conditional request), got status %v body %q, next ran=%v; %s", wantBody, spy.Codes, clip(body), nextRan, desc)
-			}
-			out.Classes = append(out.Classes, "file-served")
+			return evid.Outcome{}, cls
 		}
+		o, cls := judge(w)
+		if o.Violation != "" && path.Clean(p) != strings.TrimSuffix(p, "/") && p != "/" {
+			// the request path is not in canonical form: whether the prefix is
+			// looked for in the path as sent or in its cleaned form is not said
+			// either; the verdict for the cleaned path is accepted as well
+			cp := path.Clean(p)
+			if strings.HasSuffix(p, "/") && cp != "/" {
+				cp += "/"
+			}
+			w2 := reference(c.Opts, q.M, cp)
+			w2.lenient = true
+			if o2, _ := judge(w2); o2.Violation == "" {
+				o, cls = o2, "non-canonical-path-cleaned-first"
+			}
+		}
+		if o.Violation != "" {
+			return o
+		}
+		out.Classes = append(out.Classes, cls)
 		if strings.Contains(p, "..") || strings.Contains(p, "//") || strings.ContainsAny(p, "\x00\\") {
 			out.NonTrivial = true
 			out.Classes = append(out.Classes, "hostile-path")
@@ -376,7 +401,7 @@ func js(v interface{}) string {
 // ---- generator ------------------------------------------------------------------------
 
 var names = []string{"a.txt", "index.html", "home.htm", "sub", "b.txt", "deep", "c.txt", "noindex", "d.txt", "dirindex", "x.txt", "sp ace.txt", "..x", "%41.txt", "idx", "p", "inner.txt", "px", "e.txt",
-	"secret.txt", "public-evil", "public", "nosuch", "A.TXT"}
+	"secret.txt", "public-evil", "public", "nosuch", "A.TXT", "tiny"}
 
 var odd = []string{"..", ".", "", "\x00", "\\", "...", "%2e%2e", "..\\", "a.txt\x00", "~", " "}
 
@@ -414,7 +439,7 @@ func genPath(t *rapid.T, o Opts) string {
 
 // known good paths, so that files and directories are hit often
 var targets = []string{"/a.txt", "/", "/sub", "/sub/", "/sub/b.txt", "/sub/deep/c.txt", "/noindex", "/noindex/", "/dirindex/", "/idx/", "/idx", "/sp ace.txt", "/..x", "/%41.txt", "/p/inner.txt", "/px", "/e.txt",
-	"/sub/../a.txt", "/sub/../../secret.txt", "/../secret.txt", "/../public-evil/e.txt", "//a.txt", "/sub//b.txt", "/./a.txt", "/sub/deep/../../a.txt", "/..", "/../", "/sub/index.html/", "/index.html"}
+	"/sub/../a.txt", "/sub/../../secret.txt", "/../secret.txt", "/../public-evil/e.txt", "//a.txt", "/sub//b.txt", "/./a.txt", "/sub/deep/../../a.txt", "/..", "/../", "/sub/index.html/", "/index.html", "/tiny", "/tiny"}
 
 func genCase(t *rapid.T) Case {
 	var c Case
@@ -440,7 +465,7 @@ func genCase(t *rapid.T) Case {
 			p = "/" + p // the path of a GET/HEAD request always starts with a slash
 		}
 		c.Reqs = append(c.Reqs, Req{
-			M:   []string{"GET", "GET", "GET", "HEAD", "POST", "PUT", "", "get", "OPTIONS", "DELETE", "head"}[rapid.IntRange(0, 10).Draw(t, "m")],
+			M:   []string{"GET", "GET", "GET", "GET", "GET", "HEAD", "HEAD", "GET", "POST", "PUT", "", "get", "OPTIONS", "DELETE", "head", "GET", "GET", "HEAD", "GET", "GET"}[rapid.IntRange(0, 19).Draw(t, "m")],
 			P:   strconv.QuoteToASCII(p),
 			INM: []string{"", "", "", "match", "nomatch"}[rapid.IntRange(0, 4).Draw(t, "inm")],
 			Hdr: []string{"", "", "", "", "", "range", "range-out", "ims-future", "ims-past"}[rapid.IntRange(0, 8).Draw(t, "hdr")],
